@@ -158,7 +158,7 @@ Print Assumptions C19_prefilter_drops_coap.
 Theorem C19_creds_match_spec : forall c s,
   tg_creds_match c s = true <->
   exists h sk i ck,
-    tg_server_sni s (cc_sni c) = Some (h, sk) /\
+    tg_server_sni s (tg_sni_sent (cc_sni c)) = Some (h, sk) /\
     tg_client_choice c (tg_hint_seen h) = Some (i, ck) /\
     tg_server_key s sk i = Some ck.
 Proof. exact tg_creds_match_spec. Qed.
@@ -178,6 +178,22 @@ Theorem C19_creds_hint_rejected : forall c s t,
   tg_creds_match c s = false.
 Proof. exact tg_creds_hint_rejected. Qed.
 Print Assumptions C19_creds_hint_rejected.
+
+(* SNI: the per-context cache of post_client_hello_gnutls_psk is transparent for every history
+   of handshakes, and a match means "the key configured for exactly the name sent" *)
+Theorem C19_sni_cache_transparent : forall (cache table : list (list Z * (list Z * list Z))) name,
+  tg_cache_ok cache table ->
+  fst (tg_sni_cached cache table name) = tg_lookup_ci name table /\
+  tg_cache_ok (snd (tg_sni_cached cache table name)) table.
+Proof. exact (@tg_sni_cache_transparent (list Z * list Z)). Qed.
+Print Assumptions C19_sni_cache_transparent.
+Theorem C19_creds_sni_exact : forall c s t,
+  sc_snis s = Some t -> sc_ids s = None -> cc_ih c = None ->
+  tg_creds_match c s = true ->
+  exists h k, tg_lookup_ci (match tg_sni_sent (cc_sni c) with Some n => n | None => [] end) t = Some (h, k) /\
+              cc_key c = k.
+Proof. exact tg_creds_sni_exact. Qed.
+Print Assumptions C19_creds_sni_exact.
 
 (* ---- non-vacuity: concrete runs (a success with NSTART = 1 and three queued messages, a
    failure with two NACKs, an oracle that never succeeds, UDP does write cleartext) *)
